@@ -183,13 +183,13 @@ pub fn required_probes(id: &str) -> &'static [&'static str] {
         "C01" => &["c01_fen_reentries", "probe_castling_right_with_enemy_king_within_two_ranks", "probe_ep_target_while_in_check", "source:tmpl-castling", "source:tmpl-ep", "source:tmpl-promotion", "source:tmpl-castle-lookalike", "source:tmpl-pawn-race", "source:forced-special", "source:tmpl-heavy"],
         "C02" => &["source:tmpl-castling", "source:tmpl-ep", "source:tmpl-promotion", "source:tmpl-castle-lookalike", "source:tmpl-pawn-race", "source:forced-special"],
         "C03" => &["probe_two_or_more_sends_in_one_go", "probe_send_after_receiver_dropped", "fault_fired:stall_search", "fault_fired:oversleep_io", "fault_fired:spawn_delay", "fault_fired:pause_all", "fault_fired:stall_before_send", "probe_search_thread_returned_well_before_the_bestmove", "probe_session_with_1100_or_more_consecutive_go"],
-        "C04" => &["c04_round_trips", "session_same_moves_from_a_different_start", "session_with_a_game_of_more_than_1024_plies"],
+        "C04" => &["c04_round_trips", "session_same_moves_from_a_different_start", "session_with_a_game_of_more_than_1024_plies", "session_same_fen_with_one_field_changed"],
         "C05" => &["c05_transposition_pairs", "c05_sensitivity_toggles", "session_same_moves_from_a_different_start"],
         "C07" => &["probe_expiry_before_first_completed_evaluation", "probe_expiry_at_root_acceptance_test", "positions_enumerated_exhaustively", "c07_runs_with_huge_allowance", "probe_closed_shuffle_searched_beyond_iteration_60", "probe_search_ran_to_its_own_end"],
         "C08" => &["c08_go_on_terminal_positions", "probe_first_send_after_deadline", "fault_fired:stall_search", "fault_fired:oversleep_io", "fault_fired:spawn_delay", "fault_fired:pause_all", "fault_fired:stall_before_send", "probe_search_thread_returned_well_before_the_bestmove", "probe_session_with_1100_or_more_consecutive_go"],
         "C09" => &["fault_fired:stall_search", "fault_fired:oversleep_io", "fault_fired:spawn_delay", "fault_fired:pause_all", "probe_search_thread_returned_well_before_the_bestmove"],
         "C10" => &["c10_roots_with_drawing_move_count_2", "c10_roots_with_drawing_move_count_3", "c10_histories_with_max_count_3", "session_same_moves_from_a_different_start", "c10_draw_sessions_with_a_completed_depth", "c10_roots_in_perpetual_check_with_one_legal_move"],
-        "C11" => &["class:mate-in-1-available", "class:some-moves-allow-mate-in-1", "class:being-mated-in-1", "class:stalemate-one-ply-away", "c11_mate_claims_verified", "c11_mated_claims_verified", "c11_roots_with_history", "c11_minimal_material_positions", "c11_heavy_material_positions", "c11_heavy_pieces_against_a_bare_king"],
+        "C11" => &["class:mate-in-1-available", "class:some-moves-allow-mate-in-1", "class:being-mated-in-1", "class:stalemate-one-ply-away", "c11_mate_claims_verified", "c11_mated_claims_verified", "c11_roots_with_history", "c11_minimal_material_positions", "c11_heavy_material_positions", "c11_heavy_pieces_against_a_bare_king", "c11_mate_by_castling_positions"],
         "C12" => &["c12_depth_3_judged", "c12_heavy_material_roots"],
         "C13" => &["c13_chain_len>=2_with_ep_or_last_rank"],
         "C15" => &["c15_real_binary_invocations", "fault_fired:fen_corrupt/over-long", "c15_legal_fens_with_counter_beyond_255_or_99"],
